@@ -7,6 +7,7 @@ import (
 	"os"
 	"path"
 	"path/filepath"
+	"sort"
 	"strings"
 
 	"github.com/getkin/kin-openapi/openapi3"
@@ -91,8 +92,13 @@ func (g Generator) Generate(openapi3Spec *openapi3.Swagger, outDir string, packa
 	if basePath == "" && len(openapi3Spec.Servers) > 0 {
 		s := openapi3Spec.Servers[0]
 		rawURL := s.URL
-		for k, v := range s.Variables {
-			if def, ok := v.Default.(string); ok {
+		variables := make([]string, 0, len(s.Variables))
+		for k := range s.Variables {
+			variables = append(variables, k)
+		}
+		sort.Strings(variables)
+		for _, k := range variables {
+			if def, ok := s.Variables[k].Default.(string); ok {
 				rawURL = strings.ReplaceAll(rawURL, "{"+k+"}", def)
 			}
 		}
